@@ -181,11 +181,11 @@ type Loc struct {
 }
 
 type Val struct {
-	T     types.Type
-	A     []string
-	Loc   *Loc
-	Tuple []*Val
-	Clos  *closureInfo
+	T         types.Type
+	A         []string
+	Loc       *Loc
+	Tuple     []*Val
+	Clos      *closureInfo
 	GhostElem types.Type // for ghost arrays (T == nil): type of the elements
 	AutoDeref bool       // captured variable: the value is the address of the variable's cell; specs see its content
 }
@@ -207,10 +207,12 @@ type State struct {
 	// Formal != nil: components resolve to formal parameter names (used to build recursive spec functions)
 	Formal      map[string]string
 	FormalOrder []string
+	// snapshots of the state at the last acquisition / release of the monitor lock on this path
+	LockSnap, UnlockSnap *State
 }
 
 func (s *State) clone() *State {
-	n := &State{Comps: make(map[string]string, len(s.Comps)), Gen: s.Gen}
+	n := &State{Comps: make(map[string]string, len(s.Comps)), Gen: s.Gen, LockSnap: s.LockSnap, UnlockSnap: s.UnlockSnap}
 	for k, v := range s.Comps {
 		n.Comps[k] = v
 	}
